@@ -7,7 +7,7 @@ From Coq Require Import String.
 From Coq Require Import List NArith Arith Bool.
 Import ListNotations.
 From TV Require Import Lib.Obs C01.Model C01.Proofs1 C01.Proofs2 C01.Proofs3 C01.Proofs4 C01.Proofs6
-  C04.Model C04.Run C04.Proofs C04.Proofs2.
+  C04.Model C04.Run C04.Proofs C04.Proofs2 C01.SrcDesc Gen.C01_src Gen.C01_equiv.
 Local Open Scope N_scope.
 
 (* (INV) For every byte stream, every segmentation, every limit configuration and whatever
@@ -18,6 +18,22 @@ Theorem C04_application_never_gets_more_than_the_limit :
   forall i : input, bodies_ok (body_bound (dec_of i) (cfg_of i)) 0 (trace i) = true.
 Proof. exact trace_bodies_bounded. Qed.
 Print Assumptions C04_application_never_gets_more_than_the_limit.
+
+(* The configured limit, as HTTP1Connection.__init__ reads it: max_body_size=Some n (0 included)
+   is the limit; None falls back to the stream's max_buffer_size.  Without a per-request
+   override no request ever hands more than that to the application; with limit 0 not a
+   single body byte (the model never even emits an empty body event: body_ev). *)
+Theorem C04_configured_limit_respected :
+  forall i : input, ov_of i = None ->
+    bodies_ok (conn_max_body (mb_of i) (sbuf_of i)) 0 (trace i) = true.
+Proof. exact configured_limit_respected. Qed.
+Print Assumptions C04_configured_limit_respected.
+
+Theorem C04_zero_limit_no_body_bytes :
+  forall i : input, mb_of i = Some 0 -> ov_of i = None ->
+    forall b, In (EvBody b) (trace i) -> b = [].
+Proof. exact zero_limit_no_body_bytes. Qed.
+Print Assumptions C04_zero_limit_no_body_bytes.
 
 (* The same for any stream implementation and any delegate that does not inflate beyond Bgz. *)
 Theorem C04_body_bound_generic :
@@ -64,7 +80,7 @@ Theorem C04_content_length_over_limit :
     head_at c b hd rest -> parse_head hd = Some (m, t, v, h) ->
     hcomb h K_CL = Some cl -> mem COMMA cl = false -> parse_int cl = Some n -> eff_max_body c < n ->
     exists pre, serve_msg whole_ops plain_dlg c b = (pre ++ [EvBad400], None) /\
-                (pre = [] \/ pre = [EvReq m t v (get_all h)]).
+                (pre = [] \/ pre = req_evs m t v h).
 Proof. exact content_length_over_limit. Qed.
 Print Assumptions C04_content_length_over_limit.
 
@@ -88,6 +104,22 @@ Theorem C04_within_limits_unaffected :
     limits_le c c' -> no_refusal (strict_reader c b) = true -> strict_reader c' b = strict_reader c b.
 Proof. exact within_limits_unaffected. Qed.
 Print Assumptions C04_within_limits_unaffected.
+
+(* Tie to the source text (translators/c01_src.py, regenerated on every run): the three limit
+   tests of http1connection.py are strict `value > limit` tests, the chunked and decompressed
+   totals are cumulative, and max_body_size=None -- and only None -- falls back to the stream's
+   max_buffer_size, exactly as conn_max_body / content_length / read_chunked / gz_chunk do. *)
+Theorem C04_source_limit_tests_are_the_modelled_ones :
+  (forall value limit,
+     cmp_holds (sd_cl_limit_cmp c01_src) value limit = (limit <? value) /\
+     cmp_holds (sd_chunk_limit_cmp c01_src) value limit = (limit <? value) /\
+     cmp_holds (sd_gzip_limit_cmp c01_src) value limit = (limit <? value)) /\
+  (sd_chunk_total_cumulative c01_src = true /\ sd_gzip_cumulative c01_src = true) /\
+  (forall mb sb, apply_unset (sd_unset c01_src) mb sb = conn_max_body mb sb).
+Proof.
+  split; [exact src_limit_tests|]. split; [exact src_totals_are_cumulative|exact src_unset_is_conn_max_body].
+Qed.
+Print Assumptions C04_source_limit_tests_are_the_modelled_ones.
 
 (* The operational model satisfies the checker that is applied to the implementation. *)
 Theorem C04_model_satisfies_checker : forall i, check_case i (run_case i) = true.
